@@ -86,6 +86,7 @@ class Sched:
         self.ctl = threading.Semaphore(0)
         self.running = 0
         self.aborting = False
+        self.orphans = []
 
     def me(self):
         return self.by_ident.get(threading.get_ident())
@@ -95,6 +96,9 @@ class Sched:
         t = TS(name)
         t.obj = obj
         with self.lock:
+            old = self.ts.get(name)
+            if old is not None and not old.done:
+                self.orphans.append(old)        # e.g. a callback thread that stop() did not wait for
             self.ts[name] = t
             self.running += 1
         return t
@@ -146,7 +150,7 @@ class Sched:
 
     def abort(self):
         self.aborting = True
-        for t in list(self.ts.values()):
+        for t in list(self.ts.values()) + self.orphans:
             t.sem.release()
 
 
@@ -250,6 +254,7 @@ def patch_listener_module():
             return T.start(self)
         _park('thr_start')
         s.expect('cb', self)
+        self.daemon = True      # harness only: a thread the code under test forgets must not keep the check alive
         return T.start(self)
 
     def cb_run(self):
@@ -871,7 +876,7 @@ def gen_requests(run):
         enum({'n': 2, 'maxQ': 0, 'ncb': 2}, 1, 1, 3, 8000, rng.randrange(20000))
         enum({'n': 2, 'maxQ': 1, 'ncb': 1}, 2, 1, 3, 8000, rng.randrange(20000))
         enum({'n': 3, 'maxQ': 2, 'ncb': 1}, 1, 1, 2, 8000, rng.randrange(20000))
-    nwalk = 60000 if thorough else 2500
+    nwalk = 90000 if thorough else 2500
     for _ in range(nwalk):
         cfg = {'n': rng.choice([1, 2, 2, 3, 3]), 'maxQ': rng.choice([0, 0, 1, 2, 3]), 'ncb': rng.choice([1, 1, 2])}
         if thorough and rng.random() < 0.1:
@@ -986,8 +991,29 @@ def _register_module():
         sys.modules[__name__] = m
 
 
+EXPECTED_FACTS = {'putNonBlocking': True, 'handlerThreadsJoined': True, 'clearAfterJoin': True,
+                  'localQueueRef': True, 'callbackExceptionCaught': True, 'queueFullStatus': 1,
+                  'stopOrder': ['_stop_listener_threads', '_stop_indication_delivery']}
+
+
+def check_source_facts(run):
+    """structure of the source text the fixed protocol of the model mirrors (tools/extractors/listener_threads.py)"""
+    import importlib.util
+    path = os.path.join(common.VERIF, 'tools', 'extractors', 'listener_threads.py')
+    spec = importlib.util.spec_from_file_location('ex_listener_threads', path)
+    m = importlib.util.module_from_spec(spec)
+    spec.loader.exec_module(m)
+    f = m.facts(common.REPO)
+    got = {k: f.get(k) for k in EXPECTED_FACTS}
+    run.extra['source_facts'] = f
+    if got != EXPECTED_FACTS:
+        run.disagree({'source': 'pywbem/_listener.py'}, EXPECTED_FACTS, got,
+                     'structure of the source differs from the protocol the model mirrors')
+
+
 def run(run):
     _register_module()
+    check_source_facts(run)
     run.rule = ('schedules of the Lean model (systematic enumeration with preemption bound 2-3 for 1-3 senders x 1-2 '
                 'indications, and seeded random walks with 1-5 senders, 1-5 indications each, 1-3 callbacks, queue '
                 'bound 0/1/2/3/5, 1-3 start()/stop() cycles, raising callbacks) replayed step by step on the real '
